@@ -12,7 +12,7 @@ mkdir -p "$scratch/repo" "$scratch/out"
 rsync -a --exclude .git /repo/ "$scratch/repo/"
 case "$patch" in
   -R:*) git -C /repo show "${patch#-R:}" -- . ':!*_test.go' | (cd "$scratch/repo" && patch -p1 -R -s) || { echo "MUTANT: reverse patch failed"; exit 3; } ;;
-  *) (cd "$scratch/repo" && patch -p1 -s < "$patch") || { echo "MUTANT: patch failed"; exit 3; } ;;
+  *) patch=$(readlink -f "$patch"); (cd "$scratch/repo" && patch -p1 -s < "$patch") || { echo "MUTANT: patch failed"; exit 3; } ;;
 esac
 (cd "$scratch/repo" && go build ./... 2>&1 | grep -v WARNING | head -5)
 /verif/bin/govc check -prop "$prop" -repo "$scratch/repo" -outdir "$scratch/out" "$@" 2>&1 | grep -v "WARNING conda" | sed "s#$scratch/out#<out>#g"
